@@ -25,6 +25,12 @@ one another; every traversal must be the reference traversal of its own tree and
 driver's record, NULL, a heap block, the tree root, an odd address); the flags of every call are
 recorded verbatim and must be exactly 0 / JSON_C_VISIT_SECOND, the userarg must arrive unchanged.
 A third of all other cases carry such options too, plus a dedicated family.
+(6) what the callback is handed: member names of 0 … 4097 and 70000 bytes (plain, printf
+metacharacters, UTF-8, random bytes), groups of long names sharing a 254…1000-byte prefix, random trees
+over a pool of long names; names longer than 32 bytes are observed as length + FNV-1a-64 + first/last
+8 bytes.  The C driver also checks identity at every call: jso_key is the key pointer of the member's
+entry in the real parent and that entry holds the node (else "!kid=0"/"!kval=0" in the key token),
+*jso_index is the node's real position ("!idx=0").
 Line syntax:  PROG { ; PROG },  PROG := TREE SCHED { ( K PROG ) }  (see harness/drv_visit.c);
 observation "T<i> <calls> | ret <r>" / "T<i> notrun" joined by " || ", every call with a sixth
 token naming the user argument it arrived with ("own" / "arg<j>").
@@ -34,6 +40,7 @@ json_visit.h (and, where the header is silent, from json-c's own tests/test_visi
 no second call on a container that answered SKIP; SKIP and POP answered to a second call
 mean CONTINUE).  It shares nothing with the Coq model."""
 import itertools
+import re
 import jvtext
 
 PROP = "C17"
@@ -72,12 +79,22 @@ def code_name(c):
 
 
 # ------------------------------------------------------------------ reference traversal
+def _ktok(k):
+    """a member name as the drivers print it"""
+    if len(k) <= 32:
+        return "k" + jvtext.hx(k)
+    h = 0xcbf29ce484222325
+    for b in k:
+        h = ((h ^ b) * 0x100000001b3) & 0xffffffffffffffff
+    return "K%d.%016x.%s.%s" % (len(k), h, k[:8].hex(), k[-8:].hex())
+
+
 def _members(v):
     """None for a scalar, else (kind letter, [(key-or-index token, child)])"""
     if isinstance(v, list):
         return "a", [("i%d" % i, c) for i, c in enumerate(v)]
     if isinstance(v, tuple) and v[0] == "o":
-        return "o", [("k" + jvtext.hx(k), c) for k, c in v[1]]
+        return "o", [(_ktok(k), c) for k, c in v[1]]
     return None
 
 
@@ -669,6 +686,68 @@ def gen_args(rng, tier):
     return out
 
 
+# ------------------------------------------------------------------ what the callback is handed
+# Every argument of every call must be the real thing: the member name in full (any length, any
+# bytes) and as the very key pointer of the member's entry, the real parent, the real index.
+KEY_LENGTHS = [0, 1, 31, 32, 33, 127, 128, 254, 255, 256, 257, 511, 512, 1000, 4095, 4096, 4097]
+
+
+def _name(rng, n, style):
+    if style == "a":
+        return bytes([0x61 + (i % 26) for i in range(n)])
+    if style == "fmt":
+        return (b"%s%n%d%%%x\\" * (n // 10 + 1))[:n]
+    if style == "utf8":
+        return ("\u00e9\u4e2d\U0001f600x" * (n // 10 + 1)).encode()[:n].rstrip(b"\xf0\x9f\x98\xe4\xb8\xc3") or b"z" * n
+    return bytes(rng.randrange(1, 256) for _ in range(n))
+
+
+def gen_keys(rng, tier):
+    out = []
+    thorough = tier != "quick"
+
+    def emit(tree, scheds):
+        text = dump(tree)
+        for sc in scheds:
+            obs, _ = want_obs(tree, sc)
+            out.append((mkline(text, sc), {"kind": "keys", "want": obs}))
+    values = [None, True, [None, ("i", 1)], ("o", [(b"in", None)]), [], b"str"]
+    for n in KEY_LENGTHS + ([70000] if True else []) + [rng.randint(258, 3000) for _ in range(2 if not thorough else 20)]:
+        styles = ["a", "fmt", "utf8", "rnd"] if (thorough or n in (255, 256, 257)) else [rng.choice(["a", "fmt", "utf8", "rnd"])]
+        if n == 70000:
+            styles = ["a"]
+        for st in styles:
+            k = _name(rng, n, st)
+            if len(k) != n:
+                k = (k + b"q" * n)[:n]
+            # the name on a scalar, a null, a container (second call), and nested one level down
+            members = [(b"first", ("i", 0)), (k, values[rng.randrange(len(values))]), (b"last", None)]
+            t1 = ("o", members)
+            t2 = [("o", [(k, None)]), ("o", [(b"x", ("o", [(k, [True])]))])]
+            t3 = ("o", [(k, ("o", [(k, [None])]))])
+            plain, _ = ref_visit(t1, [])
+            at = next(i for i, c in enumerate(plain) if c.startswith("/1 0 "))
+            emit(t1, [[], [CONTINUE] * at + [rng.choice([SKIP, POP])]])
+            emit(t2 if rng.random() < 0.5 else t3, [[]])
+    # two (or more) long names with a common prefix of 254 / 255 / 256 / 257 / 1000 bytes: a shortened
+    # name would name another member, or two members the same
+    for pre in (254, 255, 256, 257, 1000):
+        base = _name(rng, pre, rng.choice(["a", "rnd", "fmt"]))
+        names = [base, base + b"A", base + b"B", base + b"AA", base[:-1]] if pre else []
+        names = [x for i, x in enumerate(names) if x not in names[:i]]
+        tree = ("o", [(nm, [None] if i % 2 else ("i", i)) for i, nm in enumerate(names)])
+        emit(tree, [[], [CONTINUE, CONTINUE, POP], [CONTINUE, SKIP, CONTINUE, CONTINUE, STOP]])
+        emit([tree, ("o", [(names[1], tree)])], [[]])
+    # random trees whose objects draw their names from a pool of long names
+    pool = [_name(rng, n, st) for n in (40, 200, 255, 256, 257, 300, 600) for st in ("a", "rnd")]
+    pool = [x for i, x in enumerate(pool) if x and x not in pool[:i]] + [b"", b"%n", b"%s%s%s%s"]
+    for _ in range(60 if not thorough else 1500):
+        tree = jvtext.gen_tree(rng, depth=3, size=4, keys=pool, nuls=False)
+        n = len(ref_visit(tree, [])[0])
+        emit(tree, [[], [_rand_code(rng) if rng.random() < 0.2 else CONTINUE for _ in range(n)]])
+    return out
+
+
 def gen(rng, tier):
     cases = gen_exhaustive(tier) + gen_random(rng, tier) + gen_programs(rng, tier) + gen_sizes(rng, tier)
     # a third of all other cases run with some non-default future_flags / userarg as well: the
@@ -686,7 +765,7 @@ def gen(rng, tier):
                 return _opts(*rot[j[0] % len(rot)])
             line = decorate(line, pick)
         out.append((line, meta))
-    return out + gen_args(rng, tier)
+    return out + gen_args(rng, tier) + gen_keys(rng, tier)
 
 
 # ------------------------------------------------------------------ oracle
@@ -695,6 +774,22 @@ def oracle(line, meta, impl):
         return ("crash", "implementation crashed: " + impl[:200])
     if "LEAK" in impl:
         return ("leak", "allocation leaked: " + impl[-40:])
+    marked = impl
+    if "!" in impl:
+        # identity marks of the C driver: judge the text without them first (a wrong name, parent or
+        # index is reported as such), then the identity on its own
+        impl = re.sub(r"!(kid=0:nomember|kid=0|kval=0|kparent=0|idx=0|iparent=0)", "", impl)
+        v = oracle(line, meta, impl)
+        if v is not None:
+            return v
+        for mark, cls, what in (("!kid=0", "key-identity", "jso_key is not the key pointer of the member's entry in the parent object"),
+                                ("!kval=0", "key-identity", "the member named by jso_key is not the node passed"),
+                                ("!kparent=0", "key-identity", "jso_key given although the parent is not an object"),
+                                ("!idx=0", "index-identity", "*jso_index is not the position of the node in the parent array"),
+                                ("!iparent=0", "index-identity", "jso_index given although the parent is not an array")):
+            if mark in marked:
+                at = marked.index(mark)
+                return (cls, what + ": … " + marked[max(0, at - 90):at + 20])
     if "BADARG" in impl:
         return ("userarg", "a call arrived with a user argument other than the one given to json_c_visit: " + impl[:160])
     want = meta.get("want")
